@@ -5,6 +5,19 @@ rejection.
 """
 from hypothesis import strategies as st
 
+# pitch pools: dense middle pools make notes interact; boundary pools touch the piano range (21/108) and the MIDI range
+# (0/127); 'stride' pools hold pitches whose difference is a keyboard-size constant (87, 88, 108, 109, 128 - 21, ...),
+# the shape that makes a flattened (channel, pitch) index collide
+STRIDE_POOLS = [(5, 92, 93), (5, 113, 114), (0, 109, 108), (18, 127, 126), (21, 108, 109), (3, 90, 91, 111, 112), (10, 117, 118)]
+BOUNDARY_POOLS = [(21, 108), (0, 127), (20, 21, 108, 109), (0, 127, 21, 108)]
+
+
+def pitch_pool(dense):
+    """strategy of pitch pools: mostly the given dense pools, sometimes boundary / stride pools"""
+    dense = [tuple(p) for p in dense]
+    return st.sampled_from(dense * 3 + BOUNDARY_POOLS + STRIDE_POOLS)
+
+
 KEYS = ["C", "G", "D", "A", "E", "B", "F#", "C#", "F", "Bb", "Eb", "Ab", "Db", "Gb", "Cb"]
 DENOMS = [2, 4, 8, 16]
 
